@@ -101,42 +101,48 @@ def work(item):
         dec.candidate('table-pairs:d=%d' % d, 'PrepareEvolve table entries do not correspond one-to-one to level pairs', kind='avg', d=d)
 
     # ---- 1. averaging scale
-    pa = single(call('h_prep_avg', [I(d), Buf('h', hv), D(t), D(scale), Buf('buf', n=2 * npairs), IBuf('flags', [None] * npairs)]), 'h_prep_avg')
-    if pa is not None:
-        A = pa.out('buf')
-        F = pa.out('flags')
-        if any(v is None for v in A) or any(v is None for v in F):
-            dec.candidate('avg:d=%d:unwritten' % d, 'PrepareEvolve(avg) leaves a table entry or flag unwritten', kind='avg', d=d)
-        else:
-            out['witnesses']['reachability'] += 1
-            conv = S.Conv('real')
-            zs = conv.conv(scale)
-            viol = []
-            for m in range(npairs):
-                cond = zabs(zc(conv, theta[m])) > zabs(zs)
-                viol.append(zc(conv, A[m]) != z3.If(cond, z3.RealVal(0), zc(conv, B[m])))
-                viol.append(zc(conv, A[npairs + m]) != z3.If(cond, z3.RealVal(0), zc(conv, B[npairs + m])))
-                fl = zc(conv, F[m]) if isinstance(F[m], Term) else z3.BitVecVal(F[m], 32)
-                viol.append((fl == 1) != cond)
-                viol.append(z3.And(fl != 0, fl != 1))
-            r, mdl, _ = solver.check(pa.pc, conv=conv, extra=[z3.Or(viol)], want_model=True,
-                                     label='averaging PrepareEvolve d=%d: entry m zeroed and flagged iff |phase_m| > |scale|, else equal to the unaveraged table (%d pairs, one merged path)' % (d, npairs))
-            if r == 'unsat':
-                dec.holds('PrepareEvolve(buf,t,scale,avr): zeroes+flags exactly the pairs with |omega t| > |scale|, others as unaveraged, d=%d' % d)
-            elif r == 'sat':
-                names = ['h%d' % k for k in diag_indices(d)] + ['t', 'scale']
-                dec.candidate('avg:d=%d' % d, 'averaging PrepareEvolve does not zero/flag exactly the pairs whose phase exceeds the scale', kind='avg', d=d,
-                              input={nm: frac_str(S.model_value(mdl, conv, nm)) for nm in names})
+    pas = call('h_prep_avg', [I(d), Buf('h', hv), D(t), D(scale), Buf('buf', n=2 * npairs), IBuf('flags', [None] * npairs)])
+    if any(p_.status != 'ok' or p_.ret != 0 for p_ in pas) or not pas:
+        out['broken'].append('h_prep_avg d=%d: %r' % (d, [(p_.status, p_.ret, p_.info) for p_ in pas]))
+        pas = []
+    for ipa, pa in enumerate(pas):
+        if True:
+            A = pa.out('buf')
+            F = pa.out('flags')
+            if any(v is None for v in A) or any(v is None for v in F):
+                dec.candidate('avg:d=%d:unwritten' % d, 'PrepareEvolve(avg) leaves a table entry or flag unwritten', kind='avg', d=d)
             else:
-                out['undecided'].append('avg d=%d' % d)
-            # sensitivity: with the threshold comparison reversed the claim must be refutable
-            conv = S.Conv('real')
-            cond = zabs(zc(conv, theta[0])) < zabs(conv.conv(scale))
-            r = solver.check(pa.pc, conv=conv, extra=[zc(conv, A[0]) != z3.If(cond, z3.RealVal(0), zc(conv, B[0]))])
-            if r == 'sat':
-                out['witnesses']['sensitivity'] += 1
-            else:
-                out['broken'].append('sensitivity avg d=%d' % d)
+                out['witnesses']['reachability'] += 1
+                conv = S.Conv('real')
+                zs = conv.conv(scale)
+                viol = []
+                for m in range(npairs):
+                    cond = zabs(zc(conv, theta[m])) > zabs(zs)
+                    viol.append(zc(conv, A[m]) != z3.If(cond, z3.RealVal(0), zc(conv, B[m])))
+                    viol.append(zc(conv, A[npairs + m]) != z3.If(cond, z3.RealVal(0), zc(conv, B[npairs + m])))
+                    fl = zc(conv, F[m]) if isinstance(F[m], Term) else z3.BitVecVal(F[m], 32)
+                    viol.append((fl == 1) != cond)
+                    viol.append(z3.And(fl != 0, fl != 1))
+                r, mdl, _ = solver.check(pa.pc, conv=conv, extra=[z3.Or(viol)], want_model=True,
+                                         label='averaging PrepareEvolve d=%d: entry m zeroed and flagged iff |phase_m| > |scale|, else equal to the unaveraged table (%d pairs, one merged path)' % (d, npairs))
+                if r == 'unsat':
+                    dec.holds('PrepareEvolve(buf,t,scale,avr): zeroes+flags exactly the pairs with |omega t| > |scale|, others as unaveraged, d=%d' % d)
+                elif r == 'sat':
+                    names = ['h%d' % k for k in diag_indices(d)] + ['t', 'scale']
+                    dec.candidate('avg:d=%d' % d, 'averaging PrepareEvolve does not zero/flag exactly the pairs whose phase exceeds the scale', kind='avg', d=d,
+                                  input={nm: frac_str(S.model_value(mdl, conv, nm)) for nm in names})
+                else:
+                    out['undecided'].append('avg d=%d' % d)
+                if ipa > 0:
+                    continue
+                # sensitivity: with the threshold comparison reversed the claim must be refutable
+                conv = S.Conv('real')
+                cond = zabs(zc(conv, theta[0])) < zabs(conv.conv(scale))
+                r = solver.check(pa.pc, conv=conv, extra=[zc(conv, A[0]) != z3.If(cond, z3.RealVal(0), zc(conv, B[0]))])
+                if r == 'sat':
+                    out['witnesses']['sensitivity'] += 1
+                else:
+                    out['broken'].append('sensitivity avg d=%d' % d)
 
     # ---- 2. filters
     for fn, ph_terms, extra_args, nm in (('h_lowpass', omega, [], 'LowPassFilter (on frequency)'), ('h_avgramp', theta, [D(t)], 'AvgRampFilter (on phase)')):
